@@ -18,7 +18,9 @@ TRUSTED_BASE = [
     "Coq 8.16.1 kernel (coqc); vm_compute used for finite sweeps and witnesses; native_compute not used",
     "axioms: none (Print Assumptions of every pinned theorem must say 'Closed under the global context')",
     "extraction: ExtrOcamlBasic only (bool, option, unit, list, prod, sumbool, sumor, andb, orb); OCaml 4.13.1; hand-written driver.ml (I/O and int<->N only)",
-    "correspondence harness: /verif/harness (Rust, serialisation of public values, catch_unwind, clock reads) and /verif/vlib (Python generators and differ)",
+    "correspondence harness: /verif/harness (Rust, serialisation of public values, catch_unwind, clock reads, variant/payload of compile errors parsed from their Debug form) and /verif/vlib (Python generators and differ)",
+    "verdict-forming Python: the per-property projections (vlib/props.py), the datum reader applied to both sides before programs are compared (vlib/sexp.py, vlib/structproj.py), and the model-independent evidence functions and cross-run comparisons (post), which alone can yield a VIOLATION; they mirror theorems but are not theorems",
+    "extraction is sampled against Coq's own evaluation (vm_compute) on every run (vlib/extraction_check.py)",
     "hand-written Gallina model of src/find_parser/*, src/ast.rs, src/scheme/*, RunOptions and of the winnow 0.6.7 subset they use: tied to the code only by the correspondence runs",
 ]
 
